@@ -19,7 +19,10 @@
 (*                   (Vec::retain is drain_filter with the predicate       *)
 (*                   negated and every item dropped);                      *)
 (*   "truncate"      Vec::truncate (also the tail of dedup_by, clear);     *)
-(*   "str_retain"    String::retain with its SetLenOnDrop guard.           *)
+(*   "str_retain"    String::retain with its SetLenOnDrop guard;           *)
+(*   "dedup"         Vec::dedup_by = partition_dedup_by (swap-based, so    *)
+(*                   the slice stays a permutation at every predicate      *)
+(*                   call) followed by truncate.                           *)
 (* Variant = "code" is the code as it is; the other variants are the       *)
 (* pre-fix / seeded forms (configs *_bad expect a violation): they show    *)
 (* that the laws have teeth and document why each guard is there.          *)
@@ -27,8 +30,8 @@
 EXTENDS Integers, Sequences, FiniteSets, TLC
 
 CONSTANTS N,        \* number of elements / characters
-          Machine,  \* "drain_filter" | "truncate" | "str_retain"
-          Variant   \* "code" | "no_backshift" | "drop_then_set_len" | "advance_first"
+          Machine,  \* "drain_filter" | "truncate" | "str_retain" | "dedup"
+          Variant   \* "code" | "no_backshift" | "drop_then_set_len" | "advance_first" | "copy_not_swap"
 
 Ids == 1..N
 Widths == {1, 2, 3}
@@ -149,14 +152,54 @@ SRNext ==
                       /\ idx' = idx + w
                       /\ UNCHANGED <<vlen, del, oldLen, pflag, pc, held, drops, take, panicked, width>>
 
+\* -------------------------------------------------------------------- dedup
+\* phase 1 (pflag = FALSE): partition_dedup_by with read index idx (0-based next_read) and write index del
+\* (next_write); phase 2 (pflag = TRUE): truncate(next_write), destructors may panic.
+DDInit ==
+  /\ buf = [i \in 1..N |-> i] /\ vlen = N /\ oldLen = N
+  /\ idx = 1 /\ del = 1 /\ pflag = FALSE /\ take = 0 /\ held = {} /\ drops = [i \in Ids |-> 0]
+  /\ pc = "run" /\ panicked = FALSE /\ width = [i \in Ids |-> 1]
+
+DDNext ==
+  /\ pc = "run"
+  /\ IF ~pflag
+     THEN IF N <= 1 \/ idx >= oldLen
+          THEN \* partition done: truncate(next_write) starts at the end of the vector
+               /\ pflag' = TRUE /\ idx' = vlen
+               /\ UNCHANGED <<buf, vlen, del, oldLen, pc, held, drops, take, panicked, width>>
+          ELSE \E outcome \in {"same", "different", "panic"} :
+                 CASE outcome = "panic" ->
+                        \* same_bucket panics: no guard, the vector keeps its length
+                        /\ panicked' = TRUE /\ pc' = "done"
+                        /\ UNCHANGED <<buf, vlen, idx, del, oldLen, pflag, held, drops, take, width>>
+                   [] outcome = "same" ->
+                        /\ idx' = idx + 1
+                        /\ UNCHANGED <<buf, vlen, del, oldLen, pflag, pc, held, drops, take, panicked, width>>
+                   [] OTHER ->
+                        /\ buf' = IF idx # del
+                                  THEN IF Variant = "copy_not_swap" THEN [buf EXCEPT ![del + 1] = buf[idx + 1]]
+                                       ELSE [buf EXCEPT ![del + 1] = buf[idx + 1], ![idx + 1] = buf[del + 1]]
+                                  ELSE buf
+                        /\ del' = del + 1 /\ idx' = idx + 1
+                        /\ UNCHANGED <<vlen, oldLen, pflag, pc, held, drops, take, panicked, width>>
+     ELSE \* truncate(del): as the "truncate" machine, down to del elements
+          IF idx <= del \/ N <= 1 THEN pc' = "done" /\ UNCHANGED <<buf, vlen, idx, del, oldLen, pflag, held, drops, take, panicked, width>>
+          ELSE \E dpanic \in {FALSE, TRUE} :
+                 /\ (dpanic => ~panicked)
+                 /\ drops' = [drops EXCEPT ![buf[idx]] = @ + 1]
+                 /\ idx' = idx - 1 /\ vlen' = vlen - 1
+                 /\ panicked' = (panicked \/ dpanic)
+                 /\ pc' = IF dpanic THEN "done" ELSE "run"
+                 /\ UNCHANGED <<buf, del, oldLen, pflag, held, take, width>>
+
 \* ------------------------------------------------------------------ spec
-Init == CASE Machine = "drain_filter" -> DFInit [] Machine = "truncate" -> TRInit [] OTHER -> SRInit
-Next == CASE Machine = "drain_filter" -> DFNext [] Machine = "truncate" -> (TRNext \/ TRDone) [] OTHER -> SRNext
+Init == CASE Machine = "drain_filter" -> DFInit [] Machine = "truncate" -> TRInit [] Machine = "dedup" -> DDInit [] OTHER -> SRInit
+Next == CASE Machine = "drain_filter" -> DFNext [] Machine = "truncate" -> (TRNext \/ TRDone) [] Machine = "dedup" -> DDNext [] OTHER -> SRNext
 Spec == Init /\ [][Next]_vars
 
 \* ------------------------------------------------------------------ laws (when the call is over)
 Over == pc = "done"
-ElemMachine == Machine \in {"drain_filter", "truncate"}
+ElemMachine == Machine \in {"drain_filter", "truncate", "dedup"}
 NoDuplicate == (Over /\ ElemMachine) => Cardinality(ContentSet) = vlen
 NothingDropped == (Over /\ ElemMachine) => \A i \in 1..vlen : drops[buf[i]] = 0
 NothingMovedOut == (Over /\ ElemMachine) => ContentSet \cap held = {}
